@@ -118,6 +118,16 @@ Proof.
 Qed.
 Print Assumptions C01_parallel_status.
 
+(* -p on bytes: the four files.  out0 / out1 are the two projections of the kept pairs, written line by line;
+   for balanced input the status is 0 (C01_parallel_status) *)
+Theorem C01_parallel_tool_bytes :
+  forall (key : list Z -> N) (input0 input1 : list Z),
+  let ps := par_spec (list Z) key key (combine (tool_lines input0) (tool_lines input1)) in
+  dedupe_par_tool key input0 input1 =
+    Ok (pstat (list Z) (tool_lines input0) (tool_lines input1), unrecords newline (map fst ps), unrecords newline (map snd ps)).
+Proof. intros. unfold dedupe_par_tool. rewrite dedupe_par_spec. reflexivity. Qed.
+Print Assumptions C01_parallel_tool_bytes.
+
 (* ---- the tool on bytes ---- *)
 Theorem C01_tool_bytes :
   forall (key : list Z -> N) (input : list Z),
@@ -152,6 +162,18 @@ Theorem C01_dropped_iff_same_selected_fields :
    exists x, In x pre /\ select (split_fields d x) rs = select (split_fields d l) rs).
 Proof. exact dropped_iff_same_selected_fields. Qed.
 Print Assumptions C01_dropped_iff_same_selected_fields.
+
+(* its structural hypotheses are met by -f 2 (range [1,2)) on lines with at least two fields *)
+Example C01_nonvacuous_selected_fields :
+  parse_key_spec [50]%Z = Some [(1, 2)]%Z /\ canonical [(1, 2)]%Z /\
+  contains_all (Z.of_nat (length (split_fields 9 [97; 9; 120; 9; 99]%Z))) [(1, 2)]%Z /\
+  contains_all (Z.of_nat (length (split_fields 9 [98; 9; 120]%Z))) [(1, 2)]%Z /\
+  select (split_fields 9 [97; 9; 120; 9; 99]%Z) [(1, 2)]%Z = select (split_fields 9 [98; 9; 120]%Z) [(1, 2)]%Z.
+Proof.
+  split; [vm_compute; reflexivity|]. split; [unfold canonical; cbn; unfold kInfiniteEnd; lia|].
+  split; [vm_compute; repeat constructor; discriminate|]. split; [vm_compute; repeat constructor; discriminate|].
+  vm_compute. reflexivity.
+Qed.
 
 (* "a\nb\na\n" through the whole model with real MurmurHash64A keys: the repeat is dropped;
    with -f 2 and TAB the key is the second field only *)
